@@ -274,6 +274,11 @@ class Interp:
                     return self.call_func(ga[2], [v, name], {})
             if isinstance(cls, ExtClass) and name in ("args",):
                 return ()
+            if "__data__" in v.fields:
+                from .builtins_ import method_of
+                m = method_of(self, v, name)
+                if m is not None:
+                    return m
             self._attr_error(v, name)
         if isinstance(v, ClassInfo):
             if name == "__name__":
